@@ -412,7 +412,7 @@ class Check:
             "wall_s": round(time.time() - self.t0, 2),
             "violations": len(self.violations),
         }
-        EVIDENCE.mkdir(exist_ok=True)
+        EVIDENCE.mkdir(parents=True, exist_ok=True)
         (EVIDENCE / f"{self.pid}.json").write_text(json.dumps(ev, indent=1, default=str))
         for fid, h in self.known_hits.items():
             print(f"KNOWN-FINDING: property={self.pid} {h['what']} [{fid}; {h['n']} occurrence(s)]")
